@@ -137,6 +137,12 @@ def build(world, strata, prop, quick, rnd):
             z = rnd.randint(46, 59) if i % 3 else rnd.randint(1, 60)
             e = round(rnd.uniform(100000, 900000), 4)
             n = round(rnd.uniform(1.2e6, 9.9e6), 4)
+            if i % 5 >= 3:
+                # far from the central meridian (up to ~30 deg) but inside the accepted easting range, low and mid latitudes
+                e = round(500000.0 + rnd.choice([-1, 1]) * rnd.uniform(9.0e5, 3.2e6), 4)
+                n = round(rnd.uniform(4.5e6, 9.9e6), 4)
+                if not (-2830000 <= e <= 3830000):
+                    e = 500000.0 + (e - 500000.0) * 0.8
             evs.append(world.sta_event(z, e, n, "sta"))
     return evs
 
